@@ -69,6 +69,24 @@ class SymArray(_np.ndarray):
     def __array_finalize__(self, obj):
         pass
 
+    @staticmethod
+    def _fix_key(key):
+        def fix(k):
+            if isinstance(k, _np.ndarray) and k.dtype == object and k.size and all(
+                    isinstance(v, bool) or type(v).__name__ == "SymbolicBool" for v in k.ravel().tolist()):
+                return _np.array([bool(v) for v in k.ravel().tolist()], dtype=bool).reshape(k.shape)
+            return k
+
+        if isinstance(key, tuple):
+            return tuple(fix(k) for k in key)
+        return fix(key)
+
+    def __getitem__(self, key):
+        return _np.ndarray.__getitem__(self, SymArray._fix_key(key))
+
+    def __setitem__(self, key, value):
+        return _np.ndarray.__setitem__(self, SymArray._fix_key(key), value)
+
     def astype(self, dtype, *a, **k):
         if self.dtype == object and _is_numeric_dtype(dtype) and has_sym(self):
             kind = _np.dtype(dtype).kind
@@ -117,6 +135,26 @@ def _build_object(obj, shape_like=None):
     return out.view(SymArray)
 
 
+_NO_WRAP = {"dtype", "errstate", "vectorize", "iinfo", "finfo"}
+
+
+def _wrap_result(r):
+    """object-dtype results stay SymArray so that .astype(int) etc. remain symbolic."""
+    if type(r) is _np.ndarray and r.dtype == object:
+        return r.view(SymArray)
+    if isinstance(r, tuple):
+        return tuple(_wrap_result(x) for x in r)
+    return r
+
+
+class _IndexWrap:
+    def __init__(self, obj):
+        self._obj = obj
+
+    def __getitem__(self, key):
+        return _wrap_result(self._obj[key])
+
+
 class SymNP:
     """Drop-in for the ``np`` module global."""
 
@@ -124,7 +162,16 @@ class SymNP:
         self._np = _np
 
     def __getattr__(self, name):
-        return getattr(_np, name)
+        attr = getattr(_np, name)
+        if name in ("r_", "c_"):
+            return _IndexWrap(attr)
+        if callable(attr) and not isinstance(attr, type) and name not in _NO_WRAP:
+            def wrapped(*a, **k):
+                return _wrap_result(attr(*a, **k))
+
+            wrapped.__name__ = name
+            return wrapped
+        return attr
 
     # ---- constructors that would force numeric dtypes
     def array(self, obj, dtype=None, *a, **k):
@@ -165,7 +212,7 @@ class SymNP:
 
     # ---- ufuncs without an object loop
     def _elementwise(self, fn, x, real):
-        if isinstance(x, _np.ndarray) and x.dtype == object and has_sym(x):
+        if isinstance(x, _np.ndarray) and x.dtype == object:
             out = _np.empty(x.shape, dtype=object).view(SymArray)
             fo = out.reshape(-1)
             for i, v in enumerate(x.ravel().tolist()):
@@ -234,8 +281,50 @@ class SymNP:
             return one(v.item() if isinstance(v, _np.ndarray) else v)
         return _np.searchsorted(a, v, side=side, sorter=sorter)
 
+    zeros_object = False  # per-instance switch: float zeros become object arrays under symbolic execution
+
     def zeros(self, shape, dtype=float, *a, **k):
+        from engine import sym as _sym
+
+        if is_symbolic(shape):
+            shape = _sym.realize(shape)
+        elif isinstance(shape, tuple) and any(is_symbolic(v) for v in shape):
+            shape = tuple(_sym.realize(v) for v in shape)
+        if self.zeros_object and _sym._ACTIVE["symbolic"] and dtype is float:
+            out = _np.empty(shape, dtype=object)
+            out.fill(0.0)
+            return out.view(SymArray)
         return _np.zeros(shape, dtype, *a, **k)
+
+    def ones(self, shape, dtype=float, *a, **k):
+        from engine import sym as _sym
+
+        if self.zeros_object and _sym._ACTIVE["symbolic"] and dtype is float:
+            out = _np.empty(shape, dtype=object)
+            out.fill(1.0)
+            return out.view(SymArray)
+        return _np.ones(shape, dtype, *a, **k)
+
+    def arange(self, *args, **k):
+        if any(is_symbolic(v) for v in args) and len(args) == 2 and not k:
+            from engine import sym as _sym
+
+            a, b = args
+            n = _sym.realize(b - a)  # only the length is made concrete
+            return _build_object([a + i for i in range(max(n, 0))]) if n > 0 else _np.empty((0,), dtype=object).view(SymArray)
+        return _np.arange(*args, **k)
+
+    def clip(self, a, a_min=None, a_max=None, **k):
+        if isinstance(a, _np.ndarray) and a.dtype == object:
+            def c(v):
+                if a_min is not None and v < a_min:
+                    v = a_min
+                if a_max is not None and v > a_max:
+                    v = a_max
+                return v
+
+            return self._elementwise(c, a, None)
+        return _np.clip(a, a_min, a_max, **k)
 
 
 def _sym_floor(v):
@@ -259,10 +348,15 @@ def _sym_round(v):
 
 
 NP = SymNP()
+NP_OBJ = SymNP()
+NP_OBJ.zeros_object = True
 
 
 def install(modules=("partitura.score",)):
     import importlib
 
     for m in modules:
-        importlib.import_module(m).np = NP
+        if m.endswith("!"):  # "module!" : float zeros()/ones() become object arrays under symbolic execution
+            importlib.import_module(m[:-1]).np = NP_OBJ
+        else:
+            importlib.import_module(m).np = NP
